@@ -1018,7 +1018,8 @@ func execC07(x *hysim.Run) {
 		synctest.Wait()
 	}
 	if len(w.in) != 0 && !w.killed && !x.Violated() {
-		hysim.HarnessBug("input not consumed after drain: %d", len(w.in))
+		// faults are off and virtual hours have passed: the receive loop is wedged
+		x.Violate("manager-stuck", "the receive loop stopped taking datagrams: %d are still queued long after faults stopped (tasks alive: %v)", len(w.in), x.Alive())
 	}
 	clean := x.StallCount() == 0 && !faultsUsed && w.dialFail == 0 && !w.killed
 	w.checkDelivery(clean, c08)
